@@ -23,7 +23,7 @@ from script_gen import S, ScriptBuilder
 
 KINDS = ["model", "enc", "import", "units", "unit", "comp", "compref", "var", "reset", "tv", "rv", "conn", "map"]
 DESC_OF_KIND = {"model": "m", "enc": "e", "import": "i", "units": "u", "unit": "ui", "comp": "c", "compref": "cr",
-                "var": "v", "reset": "r", "tv": "tv", "rv": "rv", "conn": "cn", "map": "mp", "math": "ma"}
+                "var": "v", "reset": "r", "tv": "tv", "rv": "rv", "conn": "cn", "map": "mp", "math": "ma", "outside": "ov"}
 KIND_OF_DESC = {v: k for k, v in DESC_OF_KIND.items()}
 ACC_OF_KIND = {"comp": "comp", "compref": "comp", "conn": "pair", "map": "pair", "model": "model", "enc": "model",
                "import": "import", "reset": "reset", "tv": "reset", "rv": "reset", "units": "units", "unit": "unit",
@@ -45,6 +45,49 @@ def is_auto_shaped(s):
 
 
 # ------------------------------------------------------------------------------------------------ generator
+
+def listed_of(structure_text):
+    """-> (listed non-MathML positions, MathML positions, component_ref positions outside the hierarchy)"""
+    w = structure_text.split()
+    listed, math, inapp = set(), set(), set()
+    i = 0
+    while i < len(w):
+        t = w[i]
+        if t == "N":
+            i += 2
+        elif t == "M":
+            listed |= {int(w[i + 1]), int(w[i + 2])}
+            i += 3
+        elif t == "U":
+            n = int(w[i + 3])
+            listed.add(int(w[i + 1]))
+            if w[i + 2] != "-":
+                listed.add(int(w[i + 2]))
+            listed |= {int(x) for x in w[i + 4:i + 4 + n]}
+            i += 4 + n
+        elif t == "C":
+            listed |= {int(w[i + 1]), int(w[i + 3])}
+            if w[i + 2] != "-":
+                listed.add(int(w[i + 2]))
+            if w[i + 4] == "1" and w[i + 5] == "0":
+                inapp.add(int(w[i + 3]))
+            i += 7
+        elif t == "V":
+            listed.add(int(w[i + 1]))
+            i += 2
+        elif t == "E":
+            listed |= {int(w[i + 1]), int(w[i + 2])}
+            i += 4
+        elif t == "R":
+            listed |= {int(w[i + 1]), int(w[i + 2]), int(w[i + 3])}
+            i += 6
+        elif t == "H":
+            math.add(int(w[i + 1]))
+            i += 2
+        else:
+            raise ValueError("structure token " + t)
+    return listed, math, inapp
+
 
 class Model:
     """a random model: script (for script.hpp), slot table (for the C++ driver), structure (for the Coq model)"""
@@ -158,6 +201,39 @@ class Model:
             cn = conn_slots[key]
             v1["eqs"].append((mp, cn, v2["slot"]))
             v2["eqs"].append((mp, cn, v1["slot"]))
+        # equivalences whose OTHER END is outside the model: a variable of another model ("world"), a variable without
+        # parent.  They stay with the variable that is inside (annotator.cpp / printer.cpp traverse the model's variables).
+        self.has_outside = False
+        if allvars and r.random() < 0.3:
+            self.has_outside = True
+            w = b.model("world")
+            wc = b.component("wc")
+            b.cmd("addcomponent", w, wc)
+            world = {"world": True}
+            used_classes = []
+            for _ in range(r.choice([1, 1, 2, 3])):
+                v1 = r.choice(allvars)
+                if any(cls[id(v1)] is u for u in used_classes):
+                    continue            # its class already holds a variable of the world component
+                used_classes.append(cls[id(v1)])
+                wv = b.variable("w%d" % len(used_classes))
+                b.cmd("addvariable", wc, wv)
+                ov = self.new("ov", wv)
+                b.cmd("addequivalence", v1["script"], wv)
+                mp = self.new("mp", v1["script"], wv)
+                key = frozenset((id(v1["comp"]), id(world)))
+                if key not in conn_slots:
+                    conn_slots[key] = self.new("cn", v1["script"], wv)
+                v1["eqs"].append((mp, conn_slots[key], ov))
+            if r.random() < 0.5:
+                v1 = r.choice(allvars)
+                pv = b.variable("orphan")
+                ov = self.new("ov", pv)
+                b.cmd("addequivalence", v1["script"], pv)
+                mp = self.new("mp", v1["script"], pv)
+                cn = self.new("cn", v1["script"], pv)      # no second component: the connection id lives on the pair alone
+                v1["eqs"].append((mp, cn, ov))
+                self.orphan = True
         # pre-order
         self.comps = []
 
@@ -174,6 +250,37 @@ class Model:
         self.next_slot = b.next_slot
         self.max_eqs = max([len(v["eqs"]) for v in allvars] + [0])
         self.n = len(self.table)
+        # ---- structural edits that can be made after hand-over: (structure text, script command); alternative 0 = no edit
+        self.alts = [(self.structure_text(), None)]
+        cands = []
+        for c in self.comps:
+            sub = set()
+
+            def collect(x):
+                sub.add(id(x))
+                for kid in x["kids"]:
+                    collect(kid)
+            collect(c)
+            parent = m if c["parent"] is None else c["parent"]["script"]
+            if r.random() < 0.5:
+                cmd = "removecomponent_p %d %d" % (parent, c["script"])
+            else:
+                cmd = "takecomponent_i %d %d" % (parent, c["sib"])
+            cands.append((self.structure_text(removed=sub), cmd))
+        if not getattr(self, "orphan", False):
+            pairs = {}
+            for c in self.comps:
+                for v in c["vars"]:
+                    for e in v["eqs"]:
+                        pairs.setdefault(e[1], set()).add(e[0])
+            for c in self.comps:
+                for v in c["vars"]:
+                    # its connection cells must not be shared with another equivalence (the cell would split)
+                    if v["eqs"] and all(len(pairs[e[1]]) == 1 for e in v["eqs"]) and all(self.kind[e[2]] == "var" for e in v["eqs"]):
+                        cands.append((self.structure_text(removed_var=v), "removevariable_p %d %d" % (c["script"], v["script"])))
+        r.shuffle(cands)
+        self.alts += cands[:2]
+        self.alt_listed = [listed_of(t) for t, _ in self.alts]
 
     def new(self, k, a, b=None):
         self.table.append((k, a, b))
@@ -183,13 +290,26 @@ class Model:
     def table_text(self):
         return ",".join(k + ":" + str(a) + ("" if b is None else ":" + str(b)) for k, a, b in self.table)
 
-    def structure_text(self):
-        t = ["N", self.n, "M", self.slot_model, self.slot_enc]
+    def alts_text(self):
+        return " ~ ".join(t for t, _ in self.alts)
+
+    def structure_text(self, removed=frozenset(), removed_var=None):
+        """the structure, optionally after removing the components in `removed` (ids of component records; whole
+        subtrees) or one variable: equivalences keep their place on the variables that remain"""
+        t = ["N", len(self.table), "M", self.slot_model, self.slot_enc]
         for u in self.units:
             t += ["U", u["slot"], "-" if u["imp"] is None else u["imp"], len(u["items"])] + u["items"]
         for c in self.comps:
-            t += ["C", c["slot"], "-" if c["imp"] is None else c["imp"], c["enc"], int(c["parent"] is None), int(bool(c["kids"])), c["sib"]]
+            if id(c) in removed:
+                continue
+            sibs = [x for x in self.comps if x["parent"] is c["parent"] and id(x) not in removed]
+            sibs.sort(key=lambda x: x["sib"])
+            kids = [x for x in c["kids"] if id(x) not in removed]
+            t += ["C", c["slot"], "-" if c["imp"] is None else c["imp"], c["enc"], int(c["parent"] is None), int(bool(kids)),
+                  [id(x) for x in sibs].index(id(c))]
             for v in c["vars"]:
+                if v is removed_var:
+                    continue
                 t += ["V", v["slot"]]
                 for e in v["eqs"]:
                     t += ["E"] + list(e)
@@ -263,6 +383,22 @@ def gen_probe_history(rng, mdl):
     return ops, False, hist
 
 
+def pick_item(r, mdl, alt):
+    """an item of the model (as it is after structural edit `alt`) for assignId: (kind, position, a, b) or None;
+    connections / mappings only when both variables are inside (assignId refuses the others: isOwnedByModel)"""
+    listed = mdl.alt_listed[alt][0]
+    slot = r.choice(sorted(listed))
+    kd = mdl.kind[slot]
+    a = bb = 0
+    if kd in ("conn", "map"):
+        cands = [(v["slot"], e[2]) for c in mdl.comps for v in c["vars"] for e in v["eqs"]
+                 if e[0 if kd == "map" else 1] == slot and v["slot"] in listed and e[2] in listed and mdl.kind[e[2]] == "var"]
+        if not cands:
+            return None
+        a, bb = r.choice(cands)
+    return kd, slot, a, bb
+
+
 def gen_history(rng, mdl, long=False):
     """-> (ops text list, nontrivial flag, histogram of op kinds)"""
     r = rng
@@ -271,7 +407,7 @@ def gen_history(rng, mdl, long=False):
     used = []                       # ids written so far (for duplicates and look-ups)
     hist = {}
     ops = []
-    state = {"set": False, "edited": False, "auto": False, "nontrivial": False}
+    state = {"set": False, "edited": False, "auto": False, "nontrivial": False, "alt": 0}
 
     def some_id():
         k = r.random()
@@ -337,13 +473,10 @@ def gen_history(rng, mdl, long=False):
             ops.append("T " + kd)
             assign_done("assignIds:" + kd)
         elif k < 0.68:
-            slot = r.choice(nonmath)
-            kd = mdl.kind[slot]
-            a = bb = 0
-            if kd in ("conn", "map"):
-                # any equivalence that uses this cell, from either side
-                cands = [(v["slot"], e[2]) for c in mdl.comps for v in c["vars"] for e in v["eqs"] if e[0 if kd == "map" else 1] == slot]
-                a, bb = r.choice(cands)
+            item = pick_item(r, mdl, state["alt"])
+            if item is None:
+                continue
+            kd, slot, a, bb = item
             ops.append("I %s %d %d %d %d" % (kd, slot, a, bb, r.choice([0, 0, 1])))
             assign_done("assignId:" + kd)
         elif k < 0.71:
@@ -352,6 +485,13 @@ def gen_history(rng, mdl, long=False):
         elif k < 0.76:
             ops.append("P")
             hist["printModel"] = hist.get("printModel", 0) + 1
+        elif k < 0.79 and state["alt"] == 0 and len(mdl.alts) > 1:
+            # structural edit after hand-over (equivalences to the removed entities stay with the variables that remain)
+            state["alt"] = r.randrange(1, len(mdl.alts))
+            ops.append("R 0 %d %s" % (state["alt"], mdl.alts[state["alt"]][1]))
+            state["edited"] = True
+            hist["structural-edit:" + mdl.alts[state["alt"]][1].split("_")[0]] = hist.get("structural-edit:" + mdl.alts[state["alt"]][1].split("_")[0], 0) + 1
+            ops.append(r.choice(["A", "T map", "T conn", "T var", "d", "P"]))
         else:
             x = S(lookup_id())
             q = r.choice(["i", "i", "x", "l", "u", "n", "d", "D", "t", "t"])
@@ -364,20 +504,24 @@ def gen_history(rng, mdl, long=False):
             else:
                 ops.append("%s %s" % (q, x))
             hist["lookup:" + q] = hist.get("lookup:" + q, 0) + 1
+    if r.random() < 0.2:
+        # the same Printer prints the model again after it gained automatic ids
+        ops += ["P", r.choice(["I model %d 0 0 0" % mdl.slot_model, "A", "T var", "T comp"]), "P"]
+        hist["print-assign-print"] = hist.get("print-assign-print", 0) + 1
     if r.random() < 0.5:
         ops += ["d", "D"]
     return ops, state["nontrivial"], hist
 
 
 def make_case(mdl, ops):
-    return "|".join([mdl.script, mdl.table_text(), mdl.structure_text(), ";".join(ops)])
+    return "|".join([mdl.script, mdl.table_text(), mdl.alts_text(), ";".join(ops)])
 
 
 def make_multi_case(models, ops):
     """models: list of (Model, clone_of index or None)"""
     return "|".join([";".join(m.script for m, cl in models if cl is None),
                      "/".join(m.table_text() if cl is None else "clone:%d" % cl for m, cl in models),
-                     "/".join(m.structure_text() for m, cl in models),
+                     "/".join(m.alts_text() for m, cl in models),
                      ";".join(ops)])
 
 
@@ -395,7 +539,7 @@ def gen_multi_history(rng, big=False):
     nxt = m0.next_slot
     for _ in range(r.choice([1, 2, 2, 3, 4])):
         k = r.random()
-        if k < 0.35 and m0.max_eqs <= 1:
+        if k < 0.35 and m0.max_eqs <= 1 and not m0.has_outside:
             models.append((m0, 0))          # models[0]->clone()
             family.append(len(models) - 1)
         elif k < 0.7:
@@ -410,6 +554,7 @@ def gen_multi_history(rng, big=False):
     nm = len(models)
     ops, hist = [], {"multi": 1}
     alive = [True] * nm
+    alts_now = [0] * nm
     known = [[] for _ in range(nm)]         # ids written to each model
     used = []
     state = {"cur": None, "edited": False, "auto": False, "nontrivial": False}
@@ -490,14 +635,11 @@ def gen_multi_history(rng, big=False):
             elif q < 0.7:
                 ops.append("T " + r.choice(KINDS))
             else:
-                nonmath = [i for i in range(mdl.n) if mdl.kind[i] != "math"]
-                slot = r.choice(nonmath)
-                kd = mdl.kind[slot]
-                a = bb = 0
-                if kd in ("conn", "map"):
-                    cands = [(v["slot"], e[2]) for c in mdl.comps for v in c["vars"] for e in v["eqs"] if e[0 if kd == "map" else 1] == slot]
-                    a, bb = r.choice(cands)
-                ops.append("I %s %d %d %d %d" % (kd, slot, a, bb, r.choice([0, 1])))
+                item = pick_item(r, mdl, alts_now[cur])
+                if item is None:
+                    ops.append("A")
+                else:
+                    ops.append("I %s %d %d %d %d" % (item + (r.choice([0, 1]),)))
             if state["edited"] or state["auto"]:
                 state["nontrivial"] = True
             hist["assign"] = hist.get("assign", 0) + 1
@@ -507,10 +649,24 @@ def gen_multi_history(rng, big=False):
             ops.append("C")
         elif k < 0.70:
             ops.append("P")
-        elif k < 0.75:
+        elif k < 0.73 and alts_now[cur] == 0 and len(models[cur][0].alts) > 1 and models[cur][1] is None \
+                and not any(cl == cur for _, cl in models):
+            mdl = models[cur][0]
+            alts_now[cur] = r.randrange(1, len(mdl.alts))
+            ops.append("R %d %d %s" % (cur, alts_now[cur], mdl.alts[alts_now[cur]][1]))
+            state["edited"] = True
+            hist["structural-edit"] = hist.get("structural-edit", 0) + 1
+            ops.append(r.choice(["A", "T map", "T conn", "d", "P"]))
+        elif k < 0.77:
             ops.append(r.choice(["d", "D"]))
         else:
             lookups(cur, 1)
+    if state["cur"] is not None and r.random() < 0.3:
+        # one Printer across models and assignments
+        ops += ["P", "A", "P"]
+        others = [j for j in range(nm) if alive[j] and j != state["cur"]]
+        if others:
+            ops += ["S %d" % r.choice(others), "P", "T var", "P"]
     ops += ["d", "D"]
     return models, ops, state["nontrivial"], hist
 
@@ -541,31 +697,20 @@ class TableView:
         secs = case.split("|")
         ttexts = secs[1].split("/")
         stexts = secs[2].split("/")
-        self.tables, self.kinds, self.inapps = [], [], []
+        self.tables, self.kinds, self.alts = [], [], []
         for k, tt in enumerate(ttexts):
             tt = tt.strip()
+            self.alts.append([listed_of(a) for a in stexts[k].split("~")])      # per alternative: (listed, math, inapplicable)
             if tt.startswith("clone:"):
                 j = int(tt[6:])
                 self.tables.append(self.tables[j])       # same positions; script objects differ (never used for clones)
                 self.kinds.append(self.kinds[j])
-                self.inapps.append(self.inapps[j])
                 continue
             table = parse_table(tt)
             self.tables.append(table)
             self.kinds.append([KIND_OF_DESC[d[0]] for d in table])
-            inapp = set()
-            w = stexts[k].split()
-            i = 0
-            while i < len(w):
-                if w[i] == "C":
-                    enc, top, kids = int(w[i + 3]), w[i + 4] == "1", w[i + 5] == "1"
-                    if top and not kids:
-                        inapp.add(enc)
-                    i += 7
-                else:
-                    i += 1
-            self.inapps.append(inapp)
         self.nmodels = len(self.tables)
+        self.alt = [0] * self.nmodels        # the structure every model has at present
         self.ops = [o for o in secs[3].split(";") if o.strip()]
         self.select(0)
 
@@ -573,7 +718,7 @@ class TableView:
         self.table = self.tables[k]
         self.kind = self.kinds[k]
         self.n = len(self.table)
-        self.inapplicable = self.inapps[k]
+        self.listed, self.math, self.inapplicable = self.alts[k][self.alt[k]]
 
     def primary(self, k, kind, slot, a, b):
         """the text the C++ driver prints for the OBJECT of an item: position of its primary descriptor"""
@@ -648,8 +793,9 @@ def judge(case, cline, mline):
         w = op.split()
         tv.select(curk)
         cur = curs[curk]
-        nonmath = [i for i in range(tv.n) if tv.kind[i] != "math"]
-        math = [i for i in range(tv.n) if tv.kind[i] == "math"]
+        nonmath = sorted(tv.listed)       # the positions of the model as it is now (removed entities are outside)
+        math = sorted(tv.math)
+        inside = tv.listed | tv.math
         c, m = cr[k], canon_model_result(tv, op, mr[k])
         # ---------------- correspondence
         if c != m:
@@ -671,6 +817,10 @@ def judge(case, cline, mline):
             alive[curk] = False
             if c != "-":
                 problems.append("ORACLE op %d: the annotator still has a model after the last reference was dropped (%s)" % (k, c))
+        elif w[0] == "R":
+            tv.alt[int(w[1])] = int(w[2])
+            if c != "-":
+                problems.append("bad case: structural edit failed: %s" % c)
         elif w[0] == "E":
             curs[int(w[3]) if len(w) > 3 else 0][int(w[1])] = unS(w[2])
         elif w[0] in ("A", "T", "I", "C"):
@@ -688,6 +838,9 @@ def judge(case, cline, mline):
                 problems.append("op %d (%s): snapshot length" % (k, op))
                 continue
             changed = [i for i in range(tv.n) if after[i] != before[i]]
+            if any(i not in inside for i in changed):
+                problems.append("ORACLE op %d (%s): positions %s that are not part of the model were changed" %
+                                (k, op, [i for i in changed if i not in inside][:6]))
             if not has_model:
                 if changed or ret not in ("b0", "s", "-"):
                     problems.append("ORACLE op %d (%s): annotator without a model changed ids or reported success" % (k, op))
@@ -731,7 +884,7 @@ def judge(case, cline, mline):
                                 (k, op, lost[:6], before[lost[0]], after[lost[0]]))
             # freshness w.r.t. every id present at call time, MathML included
             new = [after[i] for i in changed if after[i] != ""]
-            present = set(x for x in before if x != "")
+            present = set(before[i] for i in inside if before[i] != "")
             present_nonmath = set(before[i] for i in nonmath if before[i] != "")
             clash = [x for x in new if x in present]
             if len(set(new)) != len(new):
@@ -806,11 +959,15 @@ def judge(case, cline, mline):
             if flags:
                 problems.append("ORACLE op %d printModel(model, true): %s" % (k, flags))
             doc = [unS(t) for t in body.split(",")] if body else []
-            present = set(x for x in cur if x != "")
+            present = set(cur[i] for i in inside if cur[i] != "")
             present_nonmath = set(cur[i] for i in nonmath if cur[i] != "")
             new = [x for x in doc if x not in present_nonmath]
             if len(set(new)) != len(new):
                 problems.append("ORACLE op %d printModel(model, true): a generated id is written twice: %s" % (k, sorted(new)[:8]))
+            reused = [x for x in sorted(set(doc)) if x in present_nonmath and doc.count(x) > len(carriers(x))]
+            if reused:
+                problems.append("ORACLE op %d printModel(model, true): id %r is written on %d elements but only %d positions of the model carry it: "
+                                "a generated id equals an existing one" % (k, reused[0], doc.count(reused[0]), len(carriers(reused[0]))))
             mclash = [x for x in new if x in present]
             if mclash:
                 known.append(("C13-mathml-ids-invisible",
@@ -904,6 +1061,8 @@ def explain(case):
             out.append("annotator->setModel(model %s)" % (w[1] if len(w) > 1 else "0"))
         elif w[0] == "X":
             out.append("drop the last reference to the model the annotator holds")
+        elif w[0] == "R":
+            out.append("model %s: structural edit through script.hpp: %s   (script slots)" % (w[1], " ".join(w[3:])))
         elif w[0] == "A":
             out.append("annotator->assignAllIds()")
         elif w[0] == "T":
